@@ -616,11 +616,18 @@ def work_block(shard):
                     model[pp] = real.get_page(pp)
             part.outcome('write-ok' if good else 'write-mismatch')
             # resync both sessions to the model (after a mismatch, or after a long write the twin skipped)
-            for pp in model:
-                if not real.same_page(pp, model[pp]):
-                    real.put_page(pp, model[pp])
-                if twin and not twin.same_page(pp, model[pp]):
-                    twin.put_page(pp, model[pp])
+            try:
+                for pp in model:
+                    if not real.same_page(pp, model[pp]):
+                        real.put_page(pp, model[pp])
+                    if twin and not twin.same_page(pp, model[pp]):
+                        twin.put_page(pp, model[pp])
+            except CheckError as e:
+                # the page no longer takes the content it is given: the write before it has left
+                # the page in a state a plain pixel assignment cannot overwrite
+                part.violation('block-write/%s/page-unusable-afterwards' % kn,
+                               '%s: after block write page %d offset %#x length %d mask %#x: %s' % (cid, p, off, ln, mask, e), case)
+                break
     part.traces = part.n
     part.sample({'cid': cid, 'cases': [list(c) for c in cases[:2]]})
     return part
@@ -716,10 +723,15 @@ def work_bsave(shard):
                     '%s: BLOAD page %d offset %#x length %d leaves different content than POKEing the '
                     'same bytes' % (cid, p, off, ln), case)
                 part.outcome('bload-mismatch')
-                for pp in range(real.num_pages):
-                    pg = twin.get_page(pp)
-                    if real.get_page(pp) != pg:
-                        real.put_page(pp, pg)
+                try:
+                    for pp in range(real.num_pages):
+                        pg = twin.get_page(pp)
+                        if real.get_page(pp) != pg:
+                            real.put_page(pp, pg)
+                except CheckError as e:
+                    part.violation('bload/%s/page-unusable-afterwards' % kn,
+                                   '%s: after BLOAD page %d offset %#x length %d: %s' % (cid, p, off, ln, e), case)
+                    break
             else:
                 part.outcome('bload-ok')
     part.traces = part.n
